@@ -120,6 +120,8 @@ B_dir(ev, e) == (ev.toserver = 1) <=> (e = "c")                                 
 \* C01: a datagram that was not produced with the session key (bit-flipped / truncated / re-typed copy, forged plaintext with a valid CRC,
 \* wrong-key ciphertext, random bytes), injected at this point of the history: discarded, nothing but the dropped counter moves
 F_noeffect(ev) == ev.res \in {"false", "hdr"} /\ ev.changed = <<>> /\ ev.cbs = 0 /\ ev.acked = 0 /\ ev.timedout = 0
+\* C08: the windows record datagrams and messages *received from the peer*; a datagram that fails authentication is not one of them
+F_window(ev) == \A i \in DOMAIN ev.changed : ev.changed[i] \notin {"pbits", "pcur", "mbits", "mcur"}
 \* nothing was built although messages are queued: none of them may fit an empty datagram (else it is stuck for ever)
 K_notstuck(ev) == ev.capped = 1 \/ \A i \in DOMAIN ev.left : ev.left[i] + 2 > Area          \* C05/C09
 \* packet construction raised: never acceptable (C09)
@@ -270,7 +272,7 @@ Clauses ==
              [] c = "B_known" -> B_known(ev, ev.e) [] c = "B_together" -> B_together(ev) [] c = "B_sealed" -> B_sealed(ev) [] c = "B_aad" -> B_aad(ev)
              [] c = "B_sec" -> B_sec(ev) [] c = "B_rate" -> B_rate(ev) [] c = "B_dir" -> B_dir(ev, ev.e)}
     ELSE IF ev.ev = "skip" THEN (IF K_notstuck(ev) THEN {} ELSE {"K_notstuck"})
-    ELSE IF ev.ev = "forge" THEN (IF F_noeffect(ev) THEN {} ELSE {"F_noeffect"})
+    ELSE IF ev.ev = "forge" THEN (IF F_noeffect(ev) THEN {} ELSE {"F_noeffect"}) \cup (IF F_window(ev) THEN {} ELSE {"F_window"})
     ELSE IF ev.ev = "builderr" THEN {"B_noraise"}
     ELSE IF ev.ev = "timeouts" THEN
        {c \in {"R_pend", "R_time", "R_cbs", "R_true"} :
